@@ -925,4 +925,25 @@ example : ∃ d, dumpTop exXS Option.none Option.none Option.none exValS = .ok d
 example : canonDecimal "0.0000001" = false ∧ canonDecimal "1.00E+2" = false ∧ canonDecimal "+1" = false ∧
     canonDecimal "NaN007" = false ∧ canonDecimal "infinity" = false ∧ canonDecimal "1E+0" = false := by decide +kernel
 
+/-- Adversarial enumerations are in the domain (the hypothesis `shapeOk` asks only that the member is the one found by
+    its VALUE): every value here is something else that identifies another member — the name of another member
+    (`LEFT = "RIGHT"`, `RIGHT = "LEFT"`), the name of an alias (`B = "ALIAS"`, `ALIAS` being a second name of `A`; the member
+    table lists canonical members), the position of another member (`IDX = 0`), a list holding a name. -/
+private def exEnvA : ClassEnv := [
+  ("Side", { module := "pkg.mod", name := "Side",
+             kind := .enum [("LEFT", .str "RIGHT"), ("RIGHT", .str "LEFT"), ("A", .int 1), ("B", .str "ALIAS"),
+                            ("IDX", .int 0), ("BOX", .list [.str "LEFT"])] })]
+private def exXA : DumpCtx := { env := exEnvA, cfg := {}, H := fun _ _ _ _ _ => raise "none" }
+private def exValA : PyVal :=
+  .list [.obj "Side" [("name", .str "LEFT"), ("value", .str "RIGHT")], .obj "Side" [("name", .str "RIGHT"), ("value", .str "LEFT")],
+         .dict [(.str "k", .obj "Side" [("name", .str "B"), ("value", .str "ALIAS")])],
+         .tuple [.obj "Side" [("name", .str "IDX"), ("value", .int 0)], .obj "Side" [("name", .str "BOX"), ("value", .list [.str "LEFT"])]]]
+example : wfVal exXA exValA = true := by decide +kernel
+example : ∃ d, dumpTop exXA Option.none Option.none Option.none exValA = .ok d ∧
+    (load ⟨exEnvA, []⟩ [] d).res = .ok (normalise exValA) :=
+  C07_roundtrip exXA [] [] exValA (by decide) (by decide +kernel) (by decide +kernel)
+/-- The transmitted `["RIGHT"]` is the member whose value is "RIGHT" (`LEFT`), not the member named `RIGHT`. -/
+example : (load ⟨exEnvA, []⟩ [] (.dict [(.str "__jsonclass__", .list [.str "pkg.mod.Side", .list [.str "RIGHT"]])])).res
+    = .ok (.obj "Side" [("name", .str "LEFT"), ("value", .str "RIGHT")]) := by decide +kernel
+
 end JRV.Props
